@@ -4,6 +4,7 @@ import (
 	"bytes"
 	"fmt"
 	"github.com/hashicorp/raft"
+	wal "github.com/hashicorp/raft-wal"
 	"strings"
 	"time"
 
@@ -60,6 +61,59 @@ func execSizesOp(op string) string {
 			}
 		}
 		return "ok readable"
+	}
+	if ws[0] == "capped" {
+		// capped <segSize> s1 s2 …: a WAL on storage whose segment files cannot grow beyond the size they were created with
+		// (a crossing write lands what fits and returns io.EOF); one StoreLogs per entry. Whatever is acknowledged must read
+		// back identically, live and after Close/Open; a refused entry must stay invisible.
+		d := simfs.New()
+		d.Record = false
+		d.CapFiles = true
+		segSize := int(atoiU(ws[1]))
+		w, err := openWalOn(d, segSize, nil)
+		if err != nil {
+			return "open-err"
+		}
+		acked := map[uint64][]byte{}
+		next := uint64(1)
+		check := func(w *wal.WAL, when string) string {
+			la, _ := w.LastIndex()
+			if la != next-1 {
+				return fmt.Sprintf("BAD %s: LastIndex=%d, %d entries acknowledged", when, la, next-1)
+			}
+			for idx, want := range acked {
+				var back raft.Log
+				if err := w.GetLog(idx, &back); err != nil {
+					return fmt.Sprintf("BAD %s: acknowledged entry %d (%d bytes) unreadable (%v)", when, idx, len(want), walClass(err))
+				}
+				if !bytes.Equal(back.Data, want) {
+					return fmt.Sprintf("BAD %s: acknowledged entry %d altered", when, idx)
+				}
+			}
+			return ""
+		}
+		for i, x := range ws[2:] {
+			l := &raft.Log{Index: next, Term: 1, Type: raft.LogCommand, Data: fillPattern(int(atoiU(x)), byte(i+3))}
+			if err := w.StoreLogs([]*raft.Log{l}); err == nil {
+				acked[next] = l.Data
+				next++
+			}
+			w.DeleteRange(^uint64(0), ^uint64(0))
+			if r := check(w, "live"); r != "" {
+				w.Close()
+				return r
+			}
+		}
+		w.Close()
+		w, err = openWalOn(d, segSize, nil)
+		if err != nil {
+			return "BAD reopen failed: " + err.Error()
+		}
+		defer w.Close()
+		if r := check(w, "after Close/Open"); r != "" {
+			return r
+		}
+		return "ok"
 	}
 	if ws[0] == "walreopen" {
 		// walreopen <pre> s1 s2 …: like walbatch, in a tail that (pre=1) already holds an earlier commit; then Close and
@@ -240,6 +294,9 @@ func sizesMonitor(ops, impl []string) []Violation {
 				vs = append(vs, Violation{Property: "C15", What: "entries each within the documented maximum size are refused", Detail: out, Ops: []string{op}, Impl: []string{out}})
 			}
 		}
+		if strings.HasPrefix(out, "BAD ") {
+			vs = append(vs, Violation{Property: "C15", What: "on storage with fixed-size files: an acknowledged entry is not readable / the log is not what was acknowledged", Detail: out, Ops: []string{op}, Impl: []string{out}})
+		}
 		if strings.HasPrefix(out, "ok ") && !strings.HasPrefix(out, "ok readable") {
 			vs = append(vs, Violation{Property: "C15", What: "an entry the WAL acknowledged cannot be read back identically", Detail: out, Ops: []string{op}, Impl: []string{out}})
 		}
@@ -328,6 +385,11 @@ func suiteSizes(seed uint64, tier string) *Report {
 		}
 	}
 	shapes["walreopen"] = true
+	// fixed-size segment files: entries that fit, that cross the end of the file, that are larger than a whole segment
+	for _, segSize := range []int{4 * KiB, 64 * KiB} {
+		c.Ops = append(c.Ops, fmt.Sprintf("capped %d %d %d %d %d %d %d %d", segSize, 100, segSize/2, segSize-200+r.Intn(64), 10, 2*segSize, segSize-40-r.Intn(16), 50))
+	}
+	shapes["capped"] = true
 	// the boundary itself is always exercised
 	c.Ops = append(c.Ops, fmt.Sprintf("big %d %d 1 2", 64*MiB+1, 4*KiB))
 	c.Impl = execSizes(c.Ops)
